@@ -41,3 +41,38 @@ def make_molecule(name, atoms, bonds, coords, resid_offset=0, top=None, velociti
 
 def simple_atoms(n, prefix, resname):
     return [('%s%d' % (prefix, i), resname, 1) for i in range(n)]
+
+
+def decoy_graph(n, edges):
+    """Another connected bond graph on the same atoms in which as many anchors (>= 2 bonds) of the original as possible
+    are anchors too, but with different two lowest-numbered neighbours - used to expose state shared between objects
+    that is keyed by atom identity (index, names).  None if there is none (n <= 3)."""
+    import itertools
+
+    def frames(es):
+        adj = {i: sorted(b if a == i else a for a, b in es if i in (a, b)) for i in range(n)}
+        return {i: tuple(adj[i][:2]) for i in range(n) if len(adj[i]) >= 2}
+
+    def connected(es):
+        adj = {i: set() for i in range(n)}
+        for a, b in es:
+            adj[a].add(b); adj[b].add(a)
+        seen, st = {0}, [0]
+        while st:
+            x = st.pop()
+            for y in adj[x]:
+                if y not in seen:
+                    seen.add(y); st.append(y)
+        return len(seen) == n
+    f0 = frames(edges)
+    pairs = list(itertools.combinations(range(n), 2))
+    best = None
+    for m in range(n - 1, min(len(pairs), n + 1) + 1):
+        for es in itertools.combinations(pairs, m):
+            if not connected(es):
+                continue
+            f1 = frames(es)
+            score = sum(1 for a in f0 if a in f1 and f1[a] != f0[a])
+            if score and (best is None or score > best[0]):
+                best = (score, sorted(es))
+    return best[1] if best else None
